@@ -362,7 +362,7 @@ func (b *V1) Read(c string, q *ReadArgs) *Resp {
 		}
 		if q.Kind == "query" {
 			out, err := b.cs[c].QueryWithContext(bgv1, &dynamodb.QueryInput{TableName: aws.String(q.T), IndexName: q.Index,
-				KeyConditionExpression: aws.String(q.Kc), FilterExpression: q.Filter, ExpressionAttributeNames: v1Names(q.Names),
+				KeyConditionExpression: aws.String(q.Kc), FilterExpression: q.Filter, ProjectionExpression: q.Proj, ExpressionAttributeNames: v1Names(q.Names),
 				ExpressionAttributeValues: v1Values(q.Values), ScanIndexForward: q.Fwd, Limit: lim, ExclusiveStartKey: esk})
 			r := b.errResp(err)
 			if err == nil && out != nil {
@@ -373,7 +373,7 @@ func (b *V1) Read(c string, q *ReadArgs) *Resp {
 			return r
 		}
 		out, err := b.cs[c].ScanWithContext(bgv1, &dynamodb.ScanInput{TableName: aws.String(q.T), IndexName: q.Index,
-			FilterExpression: q.Filter, ExpressionAttributeNames: v1Names(q.Names),
+			FilterExpression: q.Filter, ProjectionExpression: q.Proj, ExpressionAttributeNames: v1Names(q.Names),
 			ExpressionAttributeValues: v1Values(q.Values), Limit: lim, ExclusiveStartKey: esk})
 		r := b.errResp(err)
 		if err == nil && out != nil {
